@@ -60,6 +60,20 @@ func (c04) Generate(seed uint64, tier string, index int) any {
 		}
 	}
 	sc.Dst = g.PriorDest(ls, true, g.R.Intn(3))
+	// replaced symlinks: half of the source symlinks meet a symlink with another target
+	for _, l := range ls {
+		if l.Entry.Type == "l" && l.Name != "." && sc.Dst.Find(l.Name) == nil && g.R.Bool() {
+			blocked := false
+			for _, d := range sc.Dst.Entries {
+				if d.Type != "d" && strings.HasPrefix(l.Name, string(d.Path)+"/") {
+					blocked = true
+				}
+			}
+			if !blocked {
+				sc.Dst.Entries = append(sc.Dst.Entries, fstree.Entry{Path: fstree.Name(l.Name), Type: "l", Perm: 0o777, Mtime: 1_400_000_000, Target: fstree.Name("old-target-" + g.NameComponent(true))})
+			}
+		}
+	}
 	min := 0
 	if arr == "A1" || arr == "A2" {
 		min = 12
@@ -228,8 +242,28 @@ func (c04) Run(t *testing.T, scenario any, job *Job, res *Result) {
 		res.Invalid = err.Error()
 		return
 	}
+	wt, werr := fstree.NewWatcher(droot)
 	base := RunSyncSession(t, &sc.Sync, lay, SessionHooks{OnStep: func(step int) error { return ac.check() }})
 	res.AddSession(base)
+	if werr == nil {
+		// the kernel's history of directory operations: a path that is replaced
+		// by an entry of the same type must never be unlinked on the way
+		evs := wt.Drain()
+		wt.Close()
+		res.Probe("inotify_events", len(evs))
+		for _, ev := range evs {
+			if ev.Op != "delete" && ev.Op != "moved_from" {
+				continue
+			}
+			nw, listed := ac.want[ev.Path]
+			old, had := ac.before[ev.Path]
+			if listed && had && old.Type == nw.Type && (nw.Type == "f" || nw.Type == "l") && !parentReplaced(ac.before, ac.want, ev.Path) && !ac.opts.Delete {
+				res.Violate("non-atomic", "unlinked-before-replacement:"+nw.Type+":"+receiverSide(sc.Sync.Arr), fmt.Sprintf("fault-free run: the kernel recorded %s of %q, which existed (%s) and is listed as %s: between that instant and the creation of the new entry the path was absent", ev.Op, ev.Path, old.Type, nw.Type))
+				setTape(&sc.Sync.Tr, base)
+				return
+			}
+		}
+	}
 	res.Probe("crash_points_checked", base.Stats.Steps)
 	res.Probe("path_checks", ac.checks)
 	res.Probe("rehashes", ac.rehash)
